@@ -589,7 +589,7 @@ theorem parseContextRange_mid (NR : NumberRoundtrip) (r : Range) (hr : RangeOK r
 
 theorem skip_old (NR : NumberRoundtrip) (r : Range) (hr : RangeOK r) (fuel : Nat) (rest : List Line) (n : Nat) (a b : Int) :
     ctxSkipToOldRange (fuel + 1) (mkPar (lfLine (oldRangeText r) :: rest) n) a b
-      = (mkPar rest (n + 1), r.start, rangeEnd r) := by
+      = .ok (mkPar rest (n + 1), r.start, rangeEnd r) := by
   rw [ctxSkipToOldRange, getLine_lf]
   simp only
   have h1 : startsWith (lfLine (oldRangeText r)).content "*** " = true := by
@@ -600,6 +600,7 @@ theorem skip_old (NR : NumberRoundtrip) (r : Range) (hr : RangeOK r) (fuel : Nat
   simp only [Bool.and_self, if_true]
   have : (lfLine (oldRangeText r)).content = oldRangeText r := rfl
   rw [this, ctxRangeText_old, parseContextRange_mid NR r hr]
+  simp only [if_true]
 
 theorem skip_stars (fuel : Nat) (rest : List Line) (n : Nat) (a b : Int) :
     ctxSkipToOldRange (fuel + 1) (mkPar (lfLine starsText :: rest) n) a b
@@ -740,7 +741,7 @@ theorem hunkLines_eq (O : List PatchLine) (oR : Range) (N : List PatchLine) (nR 
 theorem skip_pre (NR : NumberRoundtrip) (pre : List Line) (hpre : pre = [] ∨ pre = [lfLine starsText])
     (r : Range) (hr : RangeOK r) (fuel : Nat) (rest : List Line) (n : Nat) (a b : Int) :
     ∃ n', ctxSkipToOldRange (fuel + 2) (mkPar (pre ++ lfLine (oldRangeText r) :: rest) n) a b
-      = (mkPar rest n', r.start, rangeEnd r) := by
+      = .ok (mkPar rest n', r.start, rangeEnd r) := by
   rcases hpre with rfl | rfl
   · exact ⟨_, skip_old NR r hr (fuel + 1) rest n a b⟩
   · refine ⟨n + 1 + 1, ?_⟩
@@ -750,7 +751,7 @@ theorem skip_pre (NR : NumberRoundtrip) (pre : List Line) (hpre : pre = [] ∨ p
 
 theorem parseHunk_stages_oldOmitted (par par1 par2 par3 par4 : Parser) (os oe ns ne : Int) (l1 : Line)
     (nls nls' : List PatchLine)
-    (h1 : ctxSkipToOldRange (par.s.rest.length + 2) par 0 0 = (par1, os, oe))
+    (h1 : ctxSkipToOldRange (par.s.rest.length + 2) par 0 0 = .ok (par1, os, oe))
     (h2 : par1.getLine = (some l1, par2))
     (h3 : ctxParseNewRange l1.content 0 0 = .ok (some (ns, ne)))
     (h4 : ctxAppendContent (par.s.rest.length + 2) par2 [] ns ne = .ok (nls, par3))
@@ -761,7 +762,7 @@ theorem parseHunk_stages_oldOmitted (par par1 par2 par3 par4 : Parser) (os oe ns
 
 theorem parseHunk_stages_both (par par1 par2 par3 par4 par5 par6 par7 par8 : Parser) (os oe ns ne : Int) (l1 l2 l3 : Line)
     (old1 ols ols' new1 nls nls' : List PatchLine)
-    (h1 : ctxSkipToOldRange (par.s.rest.length + 2) par 0 0 = (par1, os, oe))
+    (h1 : ctxSkipToOldRange (par.s.rest.length + 2) par 0 0 = .ok (par1, os, oe))
     (h2 : par1.getLine = (some l1, par2))
     (h3 : ctxParseNewRange l1.content 0 0 = .ok none)
     (h4 : ctxAppendLine [] l1.content l1.newline = .ok old1)
@@ -782,7 +783,7 @@ theorem parseHunk_stages_both (par par1 par2 par3 par4 par5 par6 par7 par8 : Par
 
 theorem parseHunk_stages_newOmitted (par par1 par2 par3 par4 par5 par6 : Parser) (os oe ns ne : Int) (l1 l2 : Line)
     (l3o : Option Line) (old1 ols ols' : List PatchLine)
-    (h1 : ctxSkipToOldRange (par.s.rest.length + 2) par 0 0 = (par1, os, oe))
+    (h1 : ctxSkipToOldRange (par.s.rest.length + 2) par 0 0 = .ok (par1, os, oe))
     (h2 : par1.getLine = (some l1, par2))
     (h3 : ctxParseNewRange l1.content 0 0 = .ok none)
     (h4 : ctxAppendLine [] l1.content l1.newline = .ok old1)
